@@ -89,6 +89,8 @@ fn chunk_record_value(bytes: &Bytes) -> Vec<u8> {
 
 enum Answer {
     Found(Vec<u8>),
+    /// a record the holder returns under ANOTHER key than the requested one (key, value)
+    FoundUnderKey(Vec<u8>, Vec<u8>),
     NotFound,
     Timeout,
 }
@@ -170,7 +172,19 @@ impl<'a> World<'a> {
                 let (id, key) = self.open.remove(idx - gates.len());
                 self.replies += 1;
                 let rk = RecordKey::new(&key);
-                match answer(self, &key) {
+                let ans = match answer(self, &key) {
+                    Answer::FoundUnderKey(k2, value) => {
+                        // kad does not compare a reply's record key with the queried key
+                        let rec = Record { key: RecordKey::new(&k2), value, publisher: None, expires: None };
+                        let peer = self.peers[(self.replies % 8) as usize];
+                        self.feed(id, QueryResult::GetRecord(Ok(kad::GetRecordOk::FoundRecord(PeerRecord { peer: Some(peer), record: rec }))), false);
+                        self.feed(id, QueryResult::GetRecord(Ok(kad::GetRecordOk::FinishedWithNoAdditionalRecord { cache_candidates: Default::default() })), true);
+                        continue;
+                    }
+                    other => other,
+                };
+                match ans {
+                    Answer::FoundUnderKey(..) => {}
                     Answer::Found(value) => {
                         let rec = Record { key: rk, value, publisher: None, expires: None };
                         let peer = self.peers[(self.replies % 8) as usize];
@@ -244,6 +258,32 @@ impl<'a> World<'a> {
         Some((dm, chunks))
     }
 
+    /// Follow the data map levels with the harness's own loop over the held chunks.
+    fn count_levels(&self, top: &Bytes) -> Option<usize> {
+        #[derive(serde::Deserialize)]
+        enum Level {
+            First(self_encryption::DataMap),
+            Additional(self_encryption::DataMap),
+        }
+        let mut bytes = top.to_vec();
+        for n in 1..10 {
+            let level: Level = rmp_serde::from_slice(&bytes).ok()?;
+            let map = match level {
+                Level::First(_) => return Some(n),
+                Level::Additional(m) => m,
+            };
+            let mut chunks = vec![];
+            for info in map.infos() {
+                let value = self.held.get(&info.dst_hash.0.to_vec())?;
+                chunks.push(self_encryption::EncryptedChunk { index: info.index, content: Bytes::from(chunk_payload(value)) });
+            }
+            let plain = self_encryption::decrypt_full_set(&map, &chunks).ok()?;
+            let wrapped: Chunk = rmp_serde::from_slice(&plain).ok()?;
+            bytes = wrapped.value().to_vec();
+        }
+        None
+    }
+
     fn hold(&mut self, c: &Chunk) {
         self.held.insert(c.name().0.to_vec(), chunk_record_value(c.value()));
     }
@@ -291,11 +331,15 @@ impl<'a> World<'a> {
                         self.rep.violate("C14", "round_trip_stuck", &[], "data_get_public never completed although nothing is pending");
                     }
                 }
-                // multi-level data maps: the top-level chunk is an Additional level
-                if let Ok(level) = rmp_level(dm.value()) {
-                    if level {
-                        self.rep.probe("multi_level_data_map");
+                // how many data-map levels did this input need (computed by the harness from the chunks)
+                match self.count_levels(dm.value()) {
+                    Some(n) => {
+                        self.rep.probe(&format!("data_map_levels_{n}"));
+                        if n > 1 {
+                            self.rep.probe("multi_level_data_map");
+                        }
                     }
+                    None => self.rep.probe("data_map_levels_unknown"),
                 }
                 self.rep.state.write_u64(n_chunks as u64);
             }
@@ -316,6 +360,11 @@ impl<'a> World<'a> {
                     1 => Answer::Timeout,
                     2 if other != vkey => Answer::Found(self.held[&other].clone()),
                     2 | 3 => Answer::Found(foreign),
+                    6 => {
+                        // another valid chunk of the same data, returned under ITS OWN key
+                        let (k2, v2) = if other != vkey { (other.clone(), self.held[&other].clone()) } else { (data::expected_chunk_key(&chunk_payload(&foreign)), foreign.clone()) };
+                        Answer::FoundUnderKey(k2, v2)
+                    }
                     4 => {
                         let right = Chunk::new(Bytes::from(chunk_payload(&self.held[&vkey])));
                         Answer::Found(try_serialize_record(&right, RecordKind::Scratchpad).expect("ser").to_vec())
@@ -332,6 +381,7 @@ impl<'a> World<'a> {
                     2 => "other_valid_chunk_substituted",
                     3 => "foreign_chunk_substituted",
                     4 => "wrong_record_kind",
+                    6 => "other_chunk_returned_under_its_own_key",
                     _ => "undecodable_bytes",
                 };
                 self.rep.fault(kind);
@@ -388,10 +438,14 @@ impl<'a> World<'a> {
                 let kind = match how {
                     2 | 3 => "other_valid_chunk_substituted",
                     4 => "wrong_record_kind",
+                    6 => "other_chunk_returned_under_its_own_key",
                     _ => "undecodable_bytes",
                 };
                 self.rep.fault(kind);
+                let other_key = other.name().0.to_vec();
+                let under_own_key = *how == 6;
                 let value = match how {
+                    6 => chunk_record_value(other.value()),
                     2 | 3 => chunk_record_value(other.value()),
                     4 => try_serialize_record(&chunk, RecordKind::Scratchpad).expect("ser").to_vec(),
                     _ => {
@@ -406,7 +460,13 @@ impl<'a> World<'a> {
                     let r = client.chunk_get(addr).await;
                     *res.lock().unwrap() = Some(r.map(|c| c.value().to_vec()).map_err(|e| format!("{e:?}")));
                 });
-                self.drive(result.clone(), &move |_w: &World, _key: &[u8]| Answer::Found(value.clone())).await;
+                self.drive(result.clone(), &move |_w: &World, _key: &[u8]| {
+                    if under_own_key {
+                        Answer::FoundUnderKey(other_key.clone(), value.clone())
+                    } else {
+                        Answer::Found(value.clone())
+                    }
+                }).await;
                 self.rep.ops += 3;
                 let got = result.lock().unwrap().clone();
                 self.rep.log(format!("chunk_get with {kind} -> {}", match &got { Some(Ok(b)) => format!("Ok({} bytes)", b.len()), Some(Err(_)) => "Err".into(), None => "stuck".into() }));
